@@ -343,8 +343,11 @@ def main():
             try:
                 return getattr(__import__(mod), fn)(r, t)
             except Exception as e:
-                return {"evaluations": 0, "distinct_nontrivial": 0, "failures": [{"text": "(sweep)", "ts": None, "opts": {}, "expected": "sweep runs", "observed": "%s: %s" % (type(e).__name__, str(e)[:300]), "what": "sweep crashed"}],
-                        "samples": [], "rule": "", "distribution": {}, "crash": traceback.format_exc()[-1500:]}
+                # the harness itself could not evaluate the property on this tree (e.g. a pattern outside the translated regex
+                # subset): the property is then not shown to hold, but there is no input on which it was seen to fail
+                msg = "sweep could not run: %s: %s" % (type(e).__name__, str(e)[:300])
+                if msg not in broken: broken.append(msg)
+                return {"evaluations": 0, "distinct_nontrivial": 0, "failures": [], "samples": [], "rule": "", "distribution": {}, "crash": traceback.format_exc()[-1500:]}
         sweep = run_sweep(rng, tier)
         fails = unlisted(corpus_fails + sweep["failures"])
         if broken and tier == "quick" and not fails:
@@ -424,6 +427,10 @@ def do_replay(pid, path):
 
 if __name__ == "__main__":
     try:
+        # the generated tables and the compiled driver are shared: runs on the registered repository may overlap (they regenerate
+        # the same data), a run on another tree (QUICKADD_REPO, used for trials of changed code) excludes every other run
+        _rl = open(os.path.join(VERIF, ".runlock"), "w")
+        fcntl.flock(_rl, fcntl.LOCK_SH if os.path.realpath(qa.REPO) == "/repo" else fcntl.LOCK_EX)
         sys.exit(main())
     except SystemExit:
         raise
